@@ -190,6 +190,30 @@ void h_unit (void)
                   "self_replay": True, "inputs": ["nd"] + ([argn] if argn else []), "replay_link": "all", "replay_exclude": [fname],
                   "timeout": 300, "kind": "proof(single element, every value of element and scale; structural FP)",
                   "note": "that every iteration applies this element function: the loop body is the element statement (frame contracts of these kernels are assumed in the implementation units)"})
+        # frame unit: index range, termination, only dest [0..count) written (the frame contract the implementation units assume)
+        SZ = {"short": 2, "int": 4, "float": 4, "double": 8}
+        sig = ("(const %s *src, int count, %s *dest%s)" if order == "scd" else "(const %s *src, %s *dest, int count%s)") % (st, dt, (", " + ep) if ep else "")
+        fh = """#include "env_pre.h"
+#include "%(fname)s"
+#include "ghost.h"
+static void %(fn)s %(sig)s
+__CPROVER_requires (0 <= count && count <= 65536)
+__CPROVER_requires (__CPROVER_is_fresh (src, (size_t) (count > 0 ? count : 1) * %(ssz)d) && __CPROVER_is_fresh (dest, (size_t) (count > 0 ? count : 1) * %(dsz)d))
+__CPROVER_assigns (__CPROVER_object_whole (dest))
+__CPROVER_ensures (1)
+;
+void h_unit (void)
+{	const %(st)s *src ; %(dt)s *dest ; int count ;
+%(decl)s
+	%(callf)s ;
+	CANARY () ;
+}
+""" % dict(fname=fname, fn=fn, sig=sig, st=st, dt=dt, ssz=SZ[st], dsz=SZ[dt], decl=("\t" + ep + " ;") if ep else "",
+           callf=("%s (src, count, dest%s)" if order == "scd" else "%s (src, dest, count%s)") % (fn, (", " + argn) if argn else ""))
+        U.append({"name": "%s.%s.frame" % (fname[:-2], fn), "props": ["C02", "C05"], "harness_text": fh, "template": "units/gen_float.py", "entry": "h_unit", "enforce": fn,
+                  "function": "%s:%s" % (fname, fn), "timeout": 300, "drop_flags": ["--signed-overflow-check"], "backend": "kissat",
+                  "loops": {fn: [{"loop_id": 0, "assigns_locals": True, "assigns": "__CPROVER_object_whole (dest)", "invariants": "0 <= i && i <= count", "decreases": "count - i"}]},
+                  "note": "index range, termination, frame; element value in the .elem unit (float -> int cast overflow of out-of-domain elements not checked)"})
     return U
 
 
